@@ -3,8 +3,10 @@
 RULE, ATRULE, CLOSE, DECL, INERT, END = range(6)
 NK = 6
 
-SELECTORS = ['a', 'b:hover', 'c[d="{;}"]', 'e::before', 'f > g', '.h:not(.i)', 'j:not(.k):hover', 'l:m, n:o']
-DECLS = [('c', 'd'), ('e', '"x;}{" f'), ('$v', '1px'), ('--cp', '2'), ('g', 'url(a:b)'), ('m', '1px 2px'), ('n', 'calc((1 - 2) / 3) q')]
+# slots are numbered from 1: with rotation 0 a document of K events uses entries 1..K of each list, so the most telling
+# variants come first
+SELECTORS = ['a', 'j:not(.k):hover', 'c[d="{;}"]', 'b:hover', 'l:m, n:o', 'e::before', 'f > g', '.h:not(.i)']
+DECLS = [('c', 'd'), ('n', 'calc((1 - 2) / 3) q'), ('e', '"x;}{" f'), ('$v', '1px'), ('g', 'url(a:b)'), ('--cp', '2'), ('m', '1px 2px')]
 # value tokens (relative to the value start) per declaration variant
 TOKENS = {'d': [(0, 1)], '"x;}{" f': [(0, 6), (7, 8)], '1px': [(0, 3)], '2': [(0, 1)], 'url(a:b)': [(0, 8)], '1px 2px': [(0, 3), (4, 7)], 'calc((1 - 2) / 3) q': [(0, 17), (18, 19)]}
 WS = ['', ' ', '\n\t', '  ']
